@@ -1651,3 +1651,111 @@ class ReadCurrent(ConnSpec):
 
 
 SPECS.append(ReadCurrent)
+
+
+# ======================================================================================
+class SavepointBody(ConnSpec):
+    """Connection.savepoint (the real body; Connection.commit uses the frame contract Savepoint): loads are
+    redirected to the temporary store (created over the NORMAL storage at the first savepoint); the current changes
+    are stored through _commit(None) (frame contract) with the connection's creating set emptied first; what that
+    step created is added to the store's creating set; the connection's creating set and registered list end empty;
+    the Savepoint object is given the state (position, COPY of the index, COPY of the creating set) - copies, so that
+    later stores into the temporary store cannot change what a rollback restores (C12: "any number of times")."""
+    func = CONN + '.savepoint'
+    props = ('C12', 'C11')
+    label = 'body'
+    callable_contract = False
+    cases = ('first-savepoint', 'later-savepoint')
+
+    def setup(self, c, case=None):
+        w = CM.mk_conn(c)
+        if case == 'later-savepoint':
+            mk_tmpstore(c, w)
+        c.ghost['sv'] = {'case': case, 'made': [], 'sp': []}
+        return {'self': w.self}
+
+    def hooks(self, c):
+        hk = ConnSpec.hooks(self, c)
+        install_tmpstore_hooks(c, hk)
+
+        def new_store(cc, interp, args, kwargs, node):
+            w = world(cc)
+            base = args[0] if args else None
+            cc.ghost['sv']['made'].append(base)
+            S = cc.obj(w.self).f
+            keep = (S['_storage'], S['_savepoint_storage'])
+            src = mk_tmpstore(cc, w)
+            S['_storage'], S['_savepoint_storage'] = keep      # the code under verification assigns them
+            for m_ in (w.sp_index, w.sp_creating):
+                cc.obj(m_).f['dom'] = z3.K(I, z3.BoolVal(False))
+            return src
+
+        def savepoint_obj(cc, interp, args, kwargs, node):
+            cc.ghost['sv']['sp'].append(tuple(args))
+            return cc.fresh_opaque('savepoint')
+
+        def gc(cc, args, kwargs, node):
+            cc.event('cacheGC')
+            return NONE
+        hk['construct:' + TMPSTORE] = new_store
+        hk['construct:ZODB.Connection:Savepoint'] = savepoint_obj
+        hk['call:' + CONN + '.cacheGC'] = gc
+        return hk
+
+    def requires(self, c, E):
+        return list(conninv(c, world(c)))
+
+    def modifies(self, c, E):
+        w = world(c)
+        m = self.universe_mods(c) | {(m_.id, '*') for m_ in (w.readCurrent, w.cache, w.added, w.creating, w.modified,
+                                                             w.registered)}
+        m |= {(w.self.id, '_storage'), (w.self.id, '_savepoint_storage'), (w.self.id, '_registered_objects')}
+        if getattr(w, 'src', None) is not None:
+            m |= {(w.sp_creating.id, '*'), (w.src.id, '*'), (w.sp_index.id, '*')}
+        return m
+
+    def outcomes(self, c, E):
+        w = world(c)
+        g = c.ghost['sv']
+        spc0 = c.obj(w.sp_creating).f['dom'] if g['case'] == 'later-savepoint' else z3.K(I, z3.BoolVal(False))
+
+        def post(cc, E, r):
+            S = cc.obj(w.self).f
+            src = S.get('_savepoint_storage')
+            ok = isinstance(src, VRef) and cc.obj(src).cls == TMPSTORE
+            out = [('a-savepoint-storage-exists', ok),
+                   ('loads-and-stores-redirected-to-it', ok and isinstance(S.get('_storage'), VRef) and
+                    S['_storage'].id == src.id)]
+            if g['case'] == 'first-savepoint':
+                out.append(('temporary-store-built-over-the-normal-storage', len(g['made']) == 1 and
+                            isinstance(g['made'][0], VRef) and g['made'][0].id == w.storage.id))
+            else:
+                out.append(('existing-temporary-store-kept', not g['made'] and ok and src.id == w.src.id))
+            commits = [e for e in cc.events if e[0] == 'outcome:_commit']
+            reg = S.get('_registered_objects')
+            out += [('registered-list-ends-empty', isinstance(reg, VRef) and cc.obj(reg).kind in ('list', 'slist') and (
+                        not cc.obj(reg).meta.get('items') if cc.obj(reg).kind == 'list' else cc.obj(reg).f['len'] == 0)),
+                    ('connection-creating-set-ends-empty', All(['oid'], lambda o: z3.Not(sel(
+                        cc.obj(S['_creating']).f['dom'], o))))]
+            if ok and len(g['sp']) == 1 and len(g['sp'][0]) == 2 and isinstance(g['sp'][0][1], VTuple) and \
+                    len(g['sp'][0][1].items) == 3:
+                so = cc.obj(src).f
+                pos, idx, cr = g['sp'][0][1].items
+                out += [('savepoint-made-for-this-connection', isinstance(g['sp'][0][0], VRef) and
+                         g['sp'][0][0].id == w.self.id),
+                        ('state.position-is-the-stores-position', contract.same_value(cc, pos, so['position'])),
+                        ('state.index-is-a-COPY-equal-and-not-aliased', isinstance(idx, VRef) and
+                         idx.id != so['index'].id and z3.And(cc.obj(idx).f['dom'] == cc.obj(so['index']).f['dom'],
+                                                             cc.obj(idx).f['val'] == cc.obj(so['index']).f['val'])),
+                        ('state.creating-is-a-COPY-equal-and-not-aliased', isinstance(cr, VRef) and
+                         cr.id != so['creating'].id and
+                         cc.obj(cr).f['dom'] == cc.obj(so['creating']).f['dom'])]
+            else:
+                out.append(('one-savepoint-object-with-(position, index, creating)', False))
+            out.append(('returns-the-savepoint', isinstance(r, VOpaque) and r.tag == 'savepoint'))
+            return out
+        return [Outcome('saved', post=post, result=lambda cc, E: cc.fresh_opaque('savepoint')),
+                Outcome('storing-fails', 'raise', 'builtins:Exception')]
+
+
+VARIANTS.append(SavepointBody)
